@@ -655,10 +655,13 @@ def check_scatter(rec, rng, inp, ndraw):
     se = np.sqrt(np.diag(cov_pop) / ndraw)
     rec.check(np.all(np.abs(pv - mean_pop) <= 6 * se + 1e-9 * mean_pop), "C14:scatter:prediction_mean",
               "mean prediction over the draws != population mean of sqrt(J Ds/Dds s) c (6 standard errors)", inp, pv, mean_pop)
-    # sample covariance element (a,b): s.e. ~ sqrt((Caa Cbb + Cab^2)/N) for near-Gaussian draws; mean model covariance:
-    # std/sqrt(N).  7 s.e. because the draws are mildly non-Gaussian (sqrt of a product, truncation)
-    sd = np.diag(cov_pop)
-    tol = 7 * np.sqrt((np.outer(sd, sd) + cov_pop ** 2) / ndraw) + 7 * cmod_std / np.sqrt(ndraw) + 1e-9 * np.abs(cmod_mean)
+    # sample covariance element (a,b) of N draws: variance (E[ca^2 cb^2] - Cab^2)/N with c the centred prediction
+    # (fourth moments taken from the population Monte-Carlo: the prediction through a piecewise-linear scaling grid
+    # can be far from Gaussian); mean model covariance: std/sqrt(N).  6 standard errors each.
+    cen = pred - mean_pop[None, :]
+    m22 = np.einsum("ma,mb->ab", cen ** 2, cen ** 2) / M
+    tol = (6 * np.sqrt(np.maximum(m22 - cov_pop ** 2, 0) / ndraw) + 6 * cmod_std / np.sqrt(ndraw)
+           + 1e-9 * np.abs(cmod_mean) + 1e-12)
     expC = cmod_mean + cov_pop
     rec.check(Cp.shape == expC.shape and np.all(np.abs(Cp - expC) <= tol), "C14:scatter:prediction_cov",
               "prediction covariance != mean model covariance + population covariance of the prediction", inp, Cp, expC)
@@ -669,9 +672,11 @@ def check_scatter(rec, rng, inp, ndraw):
     sd_tot = np.sqrt(max(e2 - e1 ** 2, 0.0))
     rec.check(abs(dm - ddt * e1) <= 6 * ddt * sd_tot / np.sqrt(ndraw) + 1e-10 * ddt, "C14:scatter:ddt_mean",
               "mean model Ddt != ddt * E[lambda (1-kappa)]", inp, dm, ddt * e1)
-    # sample std (ddof=0): relative s.e. 1/sqrt(2N) for a Gaussian; the product of two Gaussians has slightly
-    # heavier tails (x1.3); 6 s.e.
-    rec.check(abs(ds_ - ddt * sd_tot) <= 6 * 1.3 * ddt * sd_tot / np.sqrt(2 * ndraw) + 1e-10 * ddt, "C14:scatter:ddt_spread",
+    # sample std of N draws: s.e. sqrt(mu4 - sigma^4) / (2 sigma sqrt(N)), mu4 from the population Monte-Carlo; 6 s.e.
+    cl = lam_tot - lam_tot.mean()
+    mu4 = float(np.mean(cl ** 4))
+    se_std = np.sqrt(max(mu4 - sd_tot ** 4, 0.0)) / (2 * sd_tot * np.sqrt(ndraw)) if sd_tot > 0 else 0.0
+    rec.check(abs(ds_ - ddt * sd_tot) <= 6 * ddt * se_std + ddt * sd_tot / ndraw + 1e-10 * ddt, "C14:scatter:ddt_spread",
               "spread of model Ddt != ddt * Std[lambda (1-kappa)]", inp, ds_, ddt * sd_tot)
     rec.check(abs(ddm - dd_s) <= 1e-10 * dd_s and abs(dds_) <= 1e-10 * dd_s, "C14:scatter:dd",
               "model Dd != dd (1+gamma_ppn)/2 with zero spread (no scatter acts on Dd)", inp, [ddm, dds_], [dd_s, 0])
